@@ -25,6 +25,31 @@ structure Facts where
   failOnInterrupt : Bool
   deriving DecidableEq, Repr
 
+/-- What the extractor reads off one endpoint's write path (`extract/torn.py` → `Gen/Torn.lean`). -/
+structure Obs where
+  /-- the write half is created inside the connection function and stays with that one thread/task -/
+  singleWriter : Bool
+  /-- acquisitions of the writer lock inside the frame-writing function -/
+  lockRegions : Nat
+  /-- frame writes, or helpers handed the locked writer, outside that one region (anywhere in the file) -/
+  writesOutsideLock : Nat
+  /-- every part of a frame goes out with `write_all`, or the frame is one whole WebSocket message -/
+  wholeWrites : Bool
+  /-- write/flush/send/timeout results that are dropped (`.ok()`, `let _ =`, an arm that carries on,
+  the count of a short write thrown away) -/
+  ignoredResults : Nat
+  /-- a failed or timed-out write leaves the connection failed (`?`/`return`/`break` out of the
+  connection function, an explicit shutdown, or a marker the next lock holder honours) -/
+  errorEnds : Bool
+  /-- a writing future that is dropped cannot be followed by another frame -/
+  cancelSafe : Bool
+  deriving DecidableEq, Repr
+
+/-- The two discipline facts, read off the observations.  Any dangerous form makes one of them false. -/
+def Obs.facts (o : Obs) : Facts :=
+  { exclusive := (o.singleWriter || o.lockRegions == 1) && o.writesOutsideLock == 0
+    failOnInterrupt := o.wholeWrites && o.ignoredResults == 0 && o.errorEnds && o.cancelSafe }
+
 /-- One run of bytes put on the wire by one write: `n` bytes of frame `m` starting at `off`.
 The model is generic in the type `F` of frames: all it needs is a frame's length (`len`); the bytes
 are only needed to read the stream off (`Conn.streamWith`).  The theorems instantiate `F := Message`,
